@@ -10,10 +10,12 @@ import (
 	"sort"
 	"strings"
 
+	"golang.org/x/tools/go/cfg"
 	"golang.org/x/tools/go/packages"
 	"golang.org/x/tools/go/ssa"
 	"golang.org/x/tools/go/ssa/ssautil"
 
+	"rscheck/cfgq"
 	"rscheck/core"
 	"rscheck/driver"
 )
@@ -237,7 +239,16 @@ func (a *analysis) flow(fn *ssa.Function) {
 						a.mark(x, w)
 					}
 				}
-			case *ssa.ChangeType, *ssa.Convert, *ssa.MakeInterface, *ssa.ChangeInterface, *ssa.TypeAssert, *ssa.Extract, *ssa.Slice,
+			case *ssa.MakeInterface:
+				// boxing a value whose type carries a password field: the box prints the
+				// field with %v/json wherever it ends up (maps, slices, status documents)
+				it, _ := x.Type().Underlying().(*types.Interface)
+				if r := a.reaches(x.X.Type()); r != "" && it != nil && it.NumMethods() == 0 && !a.isSanitized(x.X) {
+					a.mark(x, fmt.Sprintf("boxed %s (reaches %s) at %s", x.X.Type().String(), r, a.pos(x.Pos())))
+				} else if w, ok := a.is(x.X); ok {
+					a.mark(x, w)
+				}
+			case *ssa.ChangeType, *ssa.Convert, *ssa.ChangeInterface, *ssa.TypeAssert, *ssa.Extract, *ssa.Slice,
 				*ssa.Index, *ssa.IndexAddr, *ssa.Lookup, *ssa.SliceToArrayPointer, *ssa.MultiConvert, *ssa.Range, *ssa.Next:
 				v := ins.(ssa.Value)
 				for _, op := range ins.Operands(nil) {
@@ -690,22 +701,52 @@ func (a *analysis) sanitizer() {
 		c.Failf("R3.sanitizer", "GetSafeOptions/returns-copy", ret.Pos(), "GetSafeOptions returns the live configuration object: nothing is masked")
 		return
 	}
+	g := cfgq.Of(c.Program, fn)
 	masked := map[string]bool{}
-	for _, st := range fn.Decl.Body.List {
-		as, ok := st.(*ast.AssignStmt)
-		if !ok || len(as.Lhs) != 1 || len(as.Rhs) != 1 {
-			continue
-		}
-		sel, ok := as.Lhs[0].(*ast.SelectorExpr)
-		if !ok {
-			continue
-		}
-		base, ok := sel.X.(*ast.Ident)
-		if !ok || info.Uses[base] != local {
-			continue
-		}
-		if _, isConst := core.StringConst(info, as.Rhs[0]); isConst {
-			masked[sel.Sel.Name] = true
+	maskedWitness := map[string][]string{}
+	if st0, ok := local.Type().Underlying().(*types.Struct); ok {
+		for i := 0; i < st0.NumFields(); i++ {
+			f := st0.Field(i)
+			if _, isSrc := a.sources[f]; !isSrc {
+				continue
+			}
+			name := f.Name()
+			isField := func(e ast.Expr) bool {
+				sel, ok := ast.Unparen(e).(*ast.SelectorExpr)
+				if !ok || sel.Sel.Name != name {
+					return false
+				}
+				base, ok := sel.X.(*ast.Ident)
+				return ok && info.Uses[base] == local
+			}
+			assign := func(n ast.Node) bool {
+				as, ok := n.(*ast.AssignStmt)
+				if !ok || len(as.Lhs) != 1 || len(as.Rhs) != 1 || !isField(as.Lhs[0]) {
+					return false
+				}
+				_, isConst := core.StringConst(info, as.Rhs[0])
+				return isConst
+			}
+			empty := func(b *cfg.Block, s int) bool {
+				return cfgq.EdgeEstablishes(b, s, func(ft cfgq.Fact) bool {
+					be, ok := ast.Unparen(ft.Expr).(*ast.BinaryExpr)
+					if !ok {
+						return false
+					}
+					for _, p := range [][2]ast.Expr{{be.X, be.Y}, {be.Y, be.X}} {
+						if !isField(p[0]) {
+							continue
+						}
+						if sv, ok := core.StringConst(info, p[1]); ok && sv == "" {
+							return be.Op == token.EQL && ft.Val || be.Op == token.NEQ && !ft.Val
+						}
+					}
+					return false
+				})
+			}
+			w := g.Path(cfgq.Query{From: g.Entry(), Avoid: assign, AvoidEdge: empty, TargetExit: cfgq.NormalExit})
+			masked[name] = w == nil
+			maskedWitness[name] = w
 		}
 	}
 	// every source field of the returned type
@@ -722,7 +763,7 @@ func (a *analysis) sanitizer() {
 		}
 		n++
 		c.Check("R3.sanitizer", "GetSafeOptions/"+f.Name(), fn.Decl.Pos(), masked[f.Name()],
-			fmt.Sprintf("GetSafeOptions must overwrite %s with a constant on the copy it returns; otherwise /conf and the start-up echo show the password", f.Name()))
+			fmt.Sprintf("GetSafeOptions must overwrite %s with a constant on every path on which it is non-empty, on the copy it returns; otherwise /conf and the start-up echo show the password", f.Name()), maskedWitness[f.Name()]...)
 		// nested structs with passwords are not expected
 	}
 	for i := 0; i < st.NumFields(); i++ {
